@@ -1,2 +1,2 @@
 #!/bin/bash
-exec "$(dirname "$0")/../../../tools/build_e1.sh" "$1" c19 concurrent
+exec "$(dirname "$0")/../../../tools/build_e1.sh" "$1" c19 concurrent util
